@@ -18,12 +18,13 @@ type FNode struct {
 	Kids  []*FNode
 
 	NilEmpty bool // pass an empty list value as a nil slice
+	Group    bool // a node whose value is a list of filters under an operator that is neither "and" nor "or"
 }
 
 // Build converts the model into the library's Filter value (fresh copies of
 // every slice so that in-place sorting by the library cannot touch the model).
 func (n *FNode) Build() *jsonapi.Filter {
-	if n.Op == "and" || n.Op == "or" {
+	if n.Op == "and" || n.Op == "or" || n.Group {
 		kids := make([]*jsonapi.Filter, len(n.Kids))
 		for i, k := range n.Kids {
 			kids[i] = k.Build()
@@ -43,7 +44,7 @@ func (n *FNode) Build() *jsonapi.Filter {
 }
 
 func (n *FNode) String() string {
-	if n.Op == "and" || n.Op == "or" {
+	if n.Op == "and" || n.Op == "or" || n.Group {
 		parts := make([]string, len(n.Kids))
 		for i, k := range n.Kids {
 			parts[i] = k.String()
@@ -404,6 +405,12 @@ func FilterTree(t *rapid.T, ts *TypeSpec, vals map[string]any, depth int, label 
 	}
 
 	n := &FNode{Op: rapid.SampledFrom([]string{"and", "or"}).Draw(t, label+"-op")}
+
+	// A list of filters under an operator nobody knows allows nothing.
+	if rapid.IntRange(0, 11).Draw(t, label+"-unkgroup") == 0 {
+		n.Op, n.Group = rapid.SampledFrom([]string{"xor", "nand", "not", "AND", "Or", "&&", "", "and ", "all"}).Draw(t, label+"-unkgroup-op"), true
+	}
+
 	k := rapid.IntRange(0, 4).Draw(t, label+"-nkids")
 
 	for i := 0; i < k; i++ {
